@@ -346,6 +346,7 @@ def raise_for(outcome, kind):
 
 UNSET = "<unset>"
 BACKEND_FAULT = [False]  # scripted backends' playback.get_time_position raises while set
+PLAY_FAULT = [None]      # "play" / "change_track": that playback call of the scripted backends raises
 
 
 def make_mixer_class(outcome, volume_reply=UNSET, mute_reply=UNSET):
@@ -434,6 +435,16 @@ def make_backend_class(i, outcome, with_providers=False):
             return None
 
     class FaultyPlayback(backend_mod.PlaybackProvider):
+        def play(self):
+            if PLAY_FAULT[0] == "play":
+                raise RuntimeError("scripted backend fault: service unavailable")
+            return super().play()
+
+        def change_track(self, track):
+            if PLAY_FAULT[0] == "change_track":
+                raise RuntimeError("scripted backend fault: service unavailable")
+            return super().change_track(track)
+
         def get_time_position(self):
             if BACKEND_FAULT[0]:
                 raise RuntimeError("scripted backend fault: device gone")
@@ -567,6 +578,7 @@ def run_shutdown_case(case, wd, data_dir=None, providers=False, work=None):
         hm = bool(case["hm"])
         mixer_cls = make_mixer_class(case["om"], case.get("mixer_volume", UNSET), case.get("mixer_mute", UNSET))
         BACKEND_FAULT[0] = False
+        PLAY_FAULT[0] = case.get("play_fault")
         if case.get("play"):
             providers = True
 
@@ -677,6 +689,16 @@ def run_shutdown_case(case, wd, data_dir=None, providers=False, work=None):
             raise_for(case["oc"], "core")
             orig_core_init(self, *a, **kw)
 
+        orig_load_state = Core._load_state
+        restore = {"raised": None}
+
+        def core_load_state(self, coverage):
+            try:
+                return orig_load_state(self, coverage)
+            except Exception as e:
+                restore["raised"] = type(e).__name__
+                raise
+
         def core_on_start(self):
             if case["oc"] == DIES:
                 raise RuntimeError("scripted core dies in on_start")
@@ -719,6 +741,7 @@ def run_shutdown_case(case, wd, data_dir=None, providers=False, work=None):
             p.set(pykka.ActorRef, "proxy", ref_proxy)
             p.set(Core, "__init__", core_init)
             p.set(Core, "on_start", core_on_start)
+            p.set(Core, "_load_state", core_load_state)
             p.set(Core, "_setup", core_setup)
             p.set(pykka.ActorRef, "ask", ask_interrupted)
             p.set(storage, "dump", dump)
@@ -753,6 +776,7 @@ def run_shutdown_case(case, wd, data_dir=None, providers=False, work=None):
             "state_digest": session_digest(state_file) if os.path.exists(state_file) else None,
             "left": left,
             "respawns_unused": SESSION_BUDGET[0],
+            "restore_raised": restore["raised"],
             "threads_left": live,
             "loop": [x if isinstance(x, str) else list(x) for x in loop_log],
             "edges": sorted(f"{a}->{b}" for (a, b) in EDGES),
@@ -764,6 +788,7 @@ def run_shutdown_case(case, wd, data_dir=None, providers=False, work=None):
             pass
         SESSION_BUDGET[0] = 0
         BACKEND_FAULT[0] = False
+        PLAY_FAULT[0] = None
         with WORLD.lock:
             del WORLD.pending[:]
         if data_dir is None:
@@ -792,6 +817,7 @@ def session_digest(path):
         "modes": [bool(tl.consume), bool(tl.random), bool(tl.repeat), bool(tl.single)],
         "next_tlid": tl.next_tlid,
         "history": len(st.history.history),
+        "playback": str(st.playback.state),
     }
 
 
@@ -805,14 +831,18 @@ def run_session_case(case, wd):
             core.tracklist.set_consume(False).get(timeout=20)
             core.tracklist.remove({"uri": ["s0:t1"]}).get(timeout=20)
 
-        first = run_shutdown_case({"hm": 1, "om": OK, "oa": OK, "early": 0, "obs": [OK], "oc": OK, "ofs": [OK],
-                                   "ol": LQUIT, "restore": 1}, wd, data_dir=data_dir, providers=True, work=seed)
+        first_case = {"hm": 1, "om": OK, "oa": OK, "early": 0, "obs": [OK], "oc": OK, "ofs": [OK],
+                      "ol": LQUIT, "restore": 1}
+        if case.get("seed_play"):  # the stored session says "was playing"
+            first_case["play"] = 1
+        first = run_shutdown_case(first_case, wd, data_dir=data_dir, providers=True, work=seed)
         before = session_digest(state_file)
-        second = run_shutdown_case(dict(case, restore=1), wd, data_dir=data_dir, providers=True,
-                                   work=lambda core: None)
+        second = run_shutdown_case({k: v for k, v in dict(case, restore=1).items() if k != "seed_play"}, wd,
+                                   data_dir=data_dir, providers=True, work=lambda core: None)
         after = session_digest(state_file)
-        return {"before": before, "after": after, "first_saves": first["saves"], "second": {
-            k: second[k] for k in ("status", "escaped", "stops", "starts", "saves", "left", "loop")}}
+        return {"before": before, "after": after, "first_saves": first["saves"], "first_loop": first["loop"],
+                "second": {k: second[k] for k in ("status", "escaped", "stops", "starts", "saves", "left", "loop",
+                                                  "restore_raised")}}
     finally:
         shutil.rmtree(data_dir, ignore_errors=True)
 
